@@ -15,10 +15,11 @@
      consistent  a prefix re-bound inside the document       [C02:prefix-rebinding-capture]
      qname_ok    an unprefixed xsi:type under another default namespace
                                                              [C02:unprefixed-qname-default-namespace]
-     nil_ok      xsi:nil spelled "1"                         [proposed C02:xsi-nil-spelled-1]
-     flags 5,6,7 (debatable, reported only): empty complex element -> '', empty
-                 built-in element -> None, attributes of the wrapper type counted as outputs
-                 (visible when the wrapper has at most one element member). *)
+     flags 5  an entirely empty element of complex type      [C02:empty-complex-element-as-empty-string]
+     flags 6  an empty element of a built-in type, no xsi:nil [C02:empty-nillable-leaf-as-none]
+   xsi:nil spelled "1" is recognised since the repair of C02:xsi-nil-spelled-1 (nil_ok only
+   excludes spellings that are not xsd:boolean, such as "TRUE"); attributes declared by the
+   response wrapper's type count as outputs (composite reply object) in the reference too. *)
 From SV Require Import Lib.Base Fam.Schema Gen.C02Tables C02.Model C02.Spec C02.Guard C02.BuildProofs
   C02.DecodeProofs C02.PromoteProofs C02.ReplyProofs.
 
@@ -34,7 +35,7 @@ Theorem decode_value : forall S names uris kinds globals,
     doc_ok env e = true ->
     flags_node S names uris kinds dt nillable x = [] ->
     ref_node S names uris kinds dt nillable x = Some v ->
-    decode S names uris kinds globals false false env (Some dt) cnil e = DOk v.
+    decode S names uris kinds globals false true env (Some dt) cnil e = DOk v.
 Proof.
   intros S names uris kinds globals H1 H2 H3 H4 e.
   exact (decode_ref_l S names uris kinds globals H1 H2 H3 H4 e).
@@ -55,7 +56,7 @@ Theorem reply_decodes : forall S names uris kinds globals,
     bodies_ok x = true ->
     flags_reply S names uris kinds wt x = [] ->
     ref_reply S names uris kinds wq wt x = Some v ->
-    reply S names uris kinds globals false true false wt raw = DOk v.
+    reply S names uris kinds globals false true true wt raw = DOk v.
 Proof. exact reply_decodes_l. Qed.
 Print Assumptions reply_decodes.
 
@@ -72,8 +73,8 @@ Theorem decode_presentation_independent : forall S names uris kinds globals,
     bodies_ok x = true ->
     flags_reply S names uris kinds wt x = [] ->
     ref_reply S names uris kinds wq wt x = Some v ->
-    reply S names uris kinds globals false true false wt raw1 =
-    reply S names uris kinds globals false true false wt raw2.
+    reply S names uris kinds globals false true true wt raw1 =
+    reply S names uris kinds globals false true true wt raw2.
 Proof.
   intros S names uris kinds globals H1 H2 H3 H4 wq wt raw1 raw2 root1 root2 x v
          Hw Ha B1 B2 E1 E2 C1 X1 D1 C2 X2 D2 Hb Hf Hr.
@@ -145,7 +146,7 @@ Example reply_decodes_nonvacuous :
     consistent root = true /\ no_xml_decl root = true /\ doc_ok [] (promote_node root) = true /\
     bodies_ok x = true /\ flags_reply ex_schema ex_names ex_uris ex_kinds ex_W x = [] /\
     ref_reply ex_schema ex_names ex_uris ex_kinds (1, 41) ex_W x = Some ex_value /\
-    reply ex_schema ex_names ex_uris ex_kinds ex_globals false true false ex_W ex_raw = DOk ex_value.
+    reply ex_schema ex_names ex_uris ex_kinds ex_globals false true true ex_W ex_raw = DOk ex_value.
 Proof.
   eexists. eexists. split; [vm_compute; reflexivity|]. split; [vm_compute; reflexivity|].
   repeat split; vm_compute; reflexivity.
@@ -179,7 +180,7 @@ Definition nil_first_doc : elem :=
 Theorem nil_first_refuted : exists e x v,
   erase [] e = Some x /\ doc_ok [] e = true /\
   ref_node ex_schema ex_names ex_uris ex_kinds (RC ex_T) false x = Some v /\
-  decode ex_schema ex_names ex_uris ex_kinds ex_globals false false [] (Some (RC ex_T)) false e <> DOk v /\
+  decode ex_schema ex_names ex_uris ex_kinds ex_globals false true [] (Some (RC ex_T)) false e <> DOk v /\
   flags_node ex_schema ex_names ex_uris ex_kinds (RC ex_T) false x = [1].
 Proof.
   exists nil_first_doc. eexists. eexists. split; [vm_compute; reflexivity|].
@@ -196,7 +197,7 @@ Definition ws_childless_doc : elem :=
 Theorem whitespace_childless_refuted : exists e x v,
   erase [] e = Some x /\ doc_ok [] e = true /\
   ref_node ex_schema ex_names ex_uris ex_kinds (RC ex_T) false x = Some v /\
-  decode ex_schema ex_names ex_uris ex_kinds ex_globals false false [] (Some (RC ex_T)) false e <> DOk v /\
+  decode ex_schema ex_names ex_uris ex_kinds ex_globals false true [] (Some (RC ex_T)) false e <> DOk v /\
   flags_node ex_schema ex_names ex_uris ex_kinds (RC ex_T) false x = [2].
 Proof.
   exists ws_childless_doc. eexists. eexists. split; [vm_compute; reflexivity|].
@@ -214,7 +215,7 @@ Theorem unprefixed_qname_refuted : exists e x v,
   erase [] e = Some x /\
   ref_node ex_schema ex_names ex_uris ex_kinds (RC ex_T) false x = Some v /\
   flags_node ex_schema ex_names ex_uris ex_kinds (RC ex_T) false x = [] /\
-  decode ex_schema ex_names ex_uris ex_kinds ex_globals false false [] (Some (RC ex_T)) false e <> DOk v /\
+  decode ex_schema ex_names ex_uris ex_kinds ex_globals false true [] (Some (RC ex_T)) false e <> DOk v /\
   doc_ok [] e = false.
 Proof.
   exists unprefixed_qname_doc. eexists. eexists. split; [vm_compute; reflexivity|].
@@ -223,20 +224,50 @@ Proof.
 Qed.
 Print Assumptions unprefixed_qname_refuted.
 
-(* <c xmlns="u1" xsi:nil="1"/> as a top-level node of complex type (cnil = false):
-   None expected, '' returned *)
-Definition nil_one_doc : elem :=
-  EL None [99]%N (Some u1) [xsi_decl] [(Some [120;115;105]%N, s_nil, s_one)] None [].
+(* both xsd:boolean spellings of xsi:nil decode to None, also for a top-level
+   node of complex type (cnil = false), as decode_value says (repaired defect
+   C02:xsi-nil-spelled-1) *)
+Definition nil_doc (v : str) : elem :=
+  EL None [99]%N (Some u1) [xsi_decl] [(Some [120;115;105]%N, s_nil, v)] None [].
 
-Theorem nil_spelled_1_refuted : exists e x,
-  erase [] e = Some x /\
-  ref_node ex_schema ex_names ex_uris ex_kinds (RC ex_T) true x = Some PNone /\
-  flags_node ex_schema ex_names ex_uris ex_kinds (RC ex_T) true x = [] /\
-  decode ex_schema ex_names ex_uris ex_kinds ex_globals false false [] (Some (RC ex_T)) false e
+Example nil_both_spellings_none :
+  doc_ok [] (nil_doc s_one) = true /\ doc_ok [] (nil_doc s_true) = true /\
+  decode ex_schema ex_names ex_uris ex_kinds ex_globals false true [] (Some (RC ex_T)) false (nil_doc s_one)
+    = DOk PNone /\
+  decode ex_schema ex_names ex_uris ex_kinds ex_globals false true [] (Some (RC ex_T)) false (nil_doc s_true)
+    = DOk PNone.
+Proof. repeat split; vm_compute; reflexivity. Qed.
+
+(* <c xmlns="u1"/> : an empty object of type T expected, '' returned (None when
+   the declaration is nillable) *)
+Definition empty_complex_doc : elem := EL None [99]%N (Some u1) [] [] None [].
+
+Theorem empty_complex_refuted : exists e x v,
+  erase [] e = Some x /\ doc_ok [] e = true /\
+  ref_node ex_schema ex_names ex_uris ex_kinds (RC ex_T) true x = Some v /\
+  v = PObj (Some (1, 10)) [] /\
+  decode ex_schema ex_names ex_uris ex_kinds ex_globals false true [] (Some (RC ex_T)) false e
     = DOk (PLeaf tag_str []) /\
-  doc_ok [] e = false.
+  decode ex_schema ex_names ex_uris ex_kinds ex_globals false true [] (Some (RC ex_T)) true e = DOk PNone /\
+  flags_node ex_schema ex_names ex_uris ex_kinds (RC ex_T) true x = [5].
 Proof.
-  exists nil_one_doc. eexists. split; [vm_compute; reflexivity|].
+  exists empty_complex_doc. eexists. eexists. split; [vm_compute; reflexivity|].
+  split; [vm_compute; reflexivity|]. split; [vm_compute; reflexivity|].
   repeat split; vm_compute; reflexivity.
 Qed.
-Print Assumptions nil_spelled_1_refuted.
+Print Assumptions empty_complex_refuted.
+
+(* <x xmlns="u2"></x> of type xsd:string : '' expected, None returned
+   (Typed.nillable is true for every built-in type) *)
+Definition empty_leaf_doc : elem := EL None [120]%N (Some u2) [] [] None [].
+
+Theorem empty_leaf_refuted : exists e x,
+  erase [] e = Some x /\ doc_ok [] e = true /\
+  ref_node ex_schema ex_names ex_uris ex_kinds (RB b_string) false x = Some (PLeaf tag_str []) /\
+  decode ex_schema ex_names ex_uris ex_kinds ex_globals false true [] (Some (RB b_string)) true e = DOk PNone /\
+  flags_node ex_schema ex_names ex_uris ex_kinds (RB b_string) false x = [6].
+Proof.
+  exists empty_leaf_doc. eexists. split; [vm_compute; reflexivity|].
+  repeat split; vm_compute; reflexivity.
+Qed.
+Print Assumptions empty_leaf_refuted.
